@@ -15,7 +15,9 @@ CLAIMS = {
     "C04": dict(
         text="Static CFG/call-graph rules over the resolved MIR of the workspace decide six structural clauses of C04: unpark=>enqueue pairing on "
              "every parked-set removal, who-may-park + requeue guard, single-constructor/single-forward delivery pipeline down to the one "
-             "mailbox.push_back, order-preserving operations only, spawner always notified, await registration before a not-finished answer. "
+             "mailbox.push_back, order-preserving operations only, spawner always notified, await registration before a not-finished answer, every "
+             "process source of a select asked about, every Action arm of the worker forwarding its Event (no worker-local short cut) and every "
+             "registered awaiter told. "
              "They hold for every path of the code, which no test schedule can enumerate; liveness under real interleavings is not decided.",
         design="§3 C04", technique="static analysis: MIR must-pass-through / pairing / who-may-call rules (rustc_private driver + rule evaluator)"),
     "C01": dict(
@@ -29,9 +31,11 @@ CLAIMS = {
         text="Decides one structural necessary condition of C02: every forward-jump placeholder the code generator plants is pointed at its join "
              "on every non-error path (value flow of the returned address into a patch call through Options and drained Vecs; dead always-None "
              "parameters pruned after checking every call site), plus the failure-path nil fill of compile_match. An unpatched placeholder is "
-             "Jump(0), in range but wrong, so only a behaviour check or this pairing rule sees it. Values, evaluation order, stack offsets and "
-             "Reset discipline are NOT decided.",
-        design="§3 C02", technique="static analysis: MIR forward value-flow closure + path exploration with discriminant threading (placeholder/patch pairing)"),
+             "Jump(0), in range but wrong, so only a behaviour check or this pairing rule sees it. Also: Reset on every compiled branch, block lifting "
+             "only for sole-term blocks, and the operand-stack discipline of the emitted code decided on the generator (one height at every emitted "
+             "join on every generator path; reviewed net-effect contracts) for the generator functions whose effect is not data-dependent. Values "
+             "and evaluation order are NOT decided.",
+        design="§3 C02", technique="static analysis: MIR forward value-flow closure + path exploration with discriminant threading; emission-effect abstract interpretation of the code generator"),
     "C05": dict(
         text="Decides structural clauses of select: who may remove from a mailbox and under which verdict (removed index tied to the examined/held "
              "message), the filter result reaching only the nil test, the awaited process's own error being propagated, latest-answer-replaces in "
@@ -42,13 +46,18 @@ CLAIMS = {
         text="Decides structural clauses: Jump/JumpIf are built only by the audited InstructionBuilder formula from in-range targets (provenance "
              "slice, followed through callers); the index-carrying instruction/type fields, derived from the executor and the ADTs, are followed by "
              "every mark/sweep/merge walker through the right table; hot/cold dispatch tables agree; remap tables are order-preserving, fresh per "
-             "merge and fed only by register_*/import_*; the match-failure nil fill is unconditional. The main claim (stack discipline and definite "
-             "locals of emitted bytecode on all paths) is NOT claimed.",
-        design="§3 C07", technique="static analysis: HIR pattern matrices / sibling agreement, MIR provenance slices, who-may-construct census"),
+             "merge and fed only by register_*/import_* (tables identified by what feeds them, not by name); id-kind discipline; the match-failure "
+             "nil fill is unconditional; and the stack-discipline clause for the part of the code generator whose effect is not data-dependent: "
+             "an emission-effect abstract interpretation of every emitting function proves one operand-stack height at every emitted join on every "
+             "generator path and freezes the net-effect contracts of 11 generator functions (pattern code, compile_match, literals, accessors, "
+             "spawns). For the recursive compile_* family (arity-dependent Tuple(n)) stack discipline and definite locals are NOT decided.",
+        design="§3 C07", technique="static analysis: HIR pattern matrices / sibling agreement, MIR provenance slices, who-may-construct census, emission-effect abstract interpretation of the code generator"),
     "C10": dict(
         text="Decides: remap completeness of every id-carrying field in tree-shake and merge, order-preserving fresh remap tables, derived and "
              "attribute-symmetric serde for every ADT reachable from Bytecode, the capture-injection prologue shape, structural re-emission of "
-             "cached module values. Equality of results across the four packaging routes is not decided.",
+             "cached module values, heap indices scoped to the executor that issued them (byte table fresh per module load, stored with its value, "
+             "looked up only through the table handed over with the value), complete type tables at module load time. Equality of results across "
+             "the four packaging routes is not decided.",
         design="§3 C10", technique="static analysis: HIR sibling agreement, derive/attribute census, MIR value-source slices"),
     "C09": dict(
         text="Decides shape conditions of the assignability/overlap relation: quantifier polarity per arm and union mode, callable variance, the "
@@ -80,7 +89,9 @@ CLAIMS = {
              "return summaries and call-site parameter ranges over the MIR of every function reachable from the 45 registered pure builtins "
              "discharges overflow / division / bounds asserts, narrowing casts and allocation sizes; guarded indexing and checked_mul guards are "
              "recognised; the remainder is held to reviewed per-(function, kind) ceilings so any new panic- or truncation-capable construct is "
-             "reported. Plus the MAX_BINARY_SIZE choke point and encapsulation of the rope representation. Agreement with a reference model "
+             "reported; iterated ranges are loop-bound sinks (hang clause). Plus the MAX_BINARY_SIZE choke point, encapsulation of the rope "
+             "representation and the rope shape invariants the reviewed bounds rest on (Tiled over a non-empty unit, Slice in bounds, Concat "
+             "length). Agreement with a reference model "
              "(value level) is NOT decided.",
         design="§3 C12", technique="static analysis: interval abstract interpretation over MIR + sink census with reviewed residual table"),
     "C13": dict(
@@ -93,13 +104,16 @@ CLAIMS = {
         text="Decides: the ownership test guards the only EffectBackend::execute call path-wise; three reviewed writers of the ownership map; "
              "close_resource has one caller, is followed by removal and runs only for completed processes; resource_id() agrees with every effect "
              "variant's fields; created handles are top-level completion values; transfer precedes forwarding on deliver and spawn with a recursive "
-             "walker. One recorded known finding (un-awaited termination never reaches cleanup). Event orderings across workers are not decided.",
-        design="§3 C14", technique="static analysis: MIR path exploration with edge deletion, dominance, who-may-call censuses, HIR pattern matrices"),
+             "walker; cleanup closes exactly what the ownership map assigns to the finished process at cleanup time; every send/spawn/completion is "
+             "routed through the environment (the only place ownership moves and cleanup is triggered). One recorded known finding (un-awaited "
+             "termination never reaches cleanup). Event orderings across workers are not decided.",
+        design="§3 C14", technique="static analysis: MIR path exploration with forced outcomes / edge deletion, dominance, provenance slices, who-may-call censuses, HIR pattern matrices"),
     "C15": dict(
         text="Decides structural clauses: a deny-by-default census of every panic-capable construct on the worker / environment / executor step "
              "paths (interval- or guard-discharged, else reviewed per-(function, kind) ceilings), the closed writer set of Process.result and frame "
              "clears, a census of every fatal EnvironmentError constructed on those paths with the reason a program cannot trigger it, the await "
-             "registration / reporting / never-dropped-answer protocol and the propagation of the awaited process's own error, and effect/ownership "
+             "registration / reporting / never-dropped-answer protocol (every process source asked about), the propagation of the awaited process's own "
+             "error, cleanup touching only the finished process's own resources, and effect/ownership "
              "failures delivered to the requesting process as values. Containment under real interleavings is NOT decided.",
         design="§3 C15", technique="static analysis: reach-set panic-site census with interval/guard discharge and reviewed tables; who-may-write census; path exploration"),
     "C16": dict(
